@@ -825,6 +825,8 @@ func c18Tables(v *bytes.Buffer, out string, kmd *pkgFiles) {
 	writeTable(v, "text_template_sites", "(function, holder, class, constructor) of every construction/extension of a text/template value in cmd/keymasterd; class: buffer-only | response | unresolved", 4, c18TextTemplateSites(kmd, ti, execs))
 	writeTable(v, "content_type_writers", "(function, declared Content-Type, class of the hand-written response writes of the same function: none | literal | non-literal)", 3, c18ContentTypeWriters(kmd))
 	c18ContextTables(v, kmd)
+	writeTable(v, "hand_built_markup", "(function, position class of the non-constant leaf: text | attr-dq | attr-sq | attr-unquoted | url-attr-... | tag | ... , escaper: escaped | base64 | raw, attribute, leaf) of every value converted to template.HTML and friends, per alternative assignment (c18_handbuilt.go); (function, constant, literal, -, expression) for values without a non-constant leaf", 5, c18HandBuiltMarkup(kmd))
+	writeTable(v, "admin_routes", "(path expression, handler expression, registered under a condition) of every registration main() makes on http.DefaultServeMux = the admin port (c18_admin.go; copied to c18_admin_gen.go)", 3, c18AdminMux(kmd, out))
 	h := c18HarvestRoutes(kmd)
 	if b, err := json.MarshalIndent(h, "", " "); err == nil {
 		os.WriteFile(filepath.Join(out, "c18_harvest.json"), b, 0644)
